@@ -3257,14 +3257,14 @@ def fmt_percent(fmt, arg):
                 out.extend(SStr.of(v).chars)
         return mk(out)
     args = arg if isinstance(arg, tuple) else (arg,)
-    parts = real_re.split(r'(%0?\d*[sd]|%%)', fmt)
+    parts = real_re.split(r'(%0?\d*[sdxX]|%%)', fmt)
     out = []
     ai = 0
     for p in parts:
         if p == '%%':
             out.append(37)
             continue
-        m = real_re.fullmatch(r'%(0?)(\d*)([sd])', p)
+        m = real_re.fullmatch(r'%(0?)(\d*)([sdxX])', p)
         if not m:
             if '%' in p:
                 raise Unsupported('fmt %r' % fmt)
@@ -3276,6 +3276,23 @@ def fmt_percent(fmt, arg):
         ai += 1
         if m.group(3) == 'd' and isinstance(a, (str, SStr)):
             raise TypeError('%d format: a real number is required, not str')
+        if m.group(3) in 'xX':
+            if isinstance(a, (str, SStr)):
+                raise TypeError('%x format: an integer is required, not str')
+            if isinstance(a, SBool):
+                a = SInt(zint(a))
+            if isinstance(a, SInt):
+                w0 = int(m.group(2) or 0)
+                if not (m.group(1) and w0 and fork(z3.And(a.z >= 0, a.z < 16 ** w0))):
+                    raise Unsupported('hex formatting of a symbolic int that may not fit the zero-padded width (%r)' % fmt)
+                base = 55 if m.group(3) == 'X' else 87
+                digs = [(a.z / (16 ** (w0 - 1 - k))) % 16 for k in range(w0)]
+                out.extend(z3.If(d < 10, 48 + d, base + d) for d in digs)
+                continue
+            if isinstance(a, int):
+                out.extend(ord(c) for c in ('%' + m.group(1) + m.group(2) + m.group(3)) % a)
+                continue
+            raise Unsupported('fmt arg %r' % type(a))
         if isinstance(a, SBool):
             a = SInt(zint(a)) if m.group(3) == 'd' else m_str(a)
         if isinstance(a, SInt):
